@@ -143,13 +143,18 @@ def spline(potential_forms, potential_form_builder):
   pot1 = pform._replace(next = None)
   pot2 = pform.next._replace(next = None)
 
+  # Any of the parts may be a modifier (e.g. sum(...)) rather than a potential form instance, modifiers
+  # have no potential_form attribute.
+  def _label(p):
+    return getattr(p, 'potential_form', getattr(p, 'modifier', None))
+
   allowed_spline_types = [s.spline_keyword for s in spline_factories]
-  if not pot2.potential_form in allowed_spline_types:
+  if not _label(pot2) in allowed_spline_types:
     allowed_spline_types_str = ["'{}'".format(t) for t in allowed_spline_types]
     allowed_spline_types_str = ",".join(allowed_spline_types_str)
     raise ConfigurationException("spline modifier only accepts spline types {} for middle potential form. '{}' was found instead".format(
       allowed_spline_types_str,
-      pot2.potential_form))
+      _label(pot2)))
 
   if pform.next.next is None:
     raise ConfigurationException("spline modifier requires three sub-potentials to be defined only two specified.")
@@ -187,9 +192,9 @@ def spline(potential_forms, potential_form_builder):
   spline_factory = [s for s in spline_factories if s.spline_keyword == pot2.potential_form ][0]
 
   logger.debug("spline modifier: connecting '{}' with {} to '{}' in range {} to {}".format(
-    pot1.potential_form,
+    _label(pot1),
     pot2.potential_form,
-    pot2.potential_form,
+    _label(pot3),
     detach_point, attach_point))
 
   # Now build the spline object
